@@ -9,6 +9,7 @@ import (
 	"encoding/json"
 	"flag"
 	"fmt"
+	"io"
 	"os"
 	"path"
 	"sort"
@@ -19,15 +20,20 @@ import (
 	"github.com/gogo/protobuf/proto"
 	"github.com/pingcap/kvproto/pkg/metapb"
 	"github.com/pingcap/log"
+	"github.com/tikv/pd/pkg/encryption"
 	"github.com/tikv/pd/pkg/mock/mockid"
 	"github.com/tikv/pd/server/cluster"
 	"github.com/tikv/pd/server/config"
 	"github.com/tikv/pd/server/core"
+	"github.com/tikv/pd/server/election"
+	"github.com/tikv/pd/server/encryptionkm"
 	"github.com/tikv/pd/server/kv"
 	"go.uber.org/zap"
+	"go.uber.org/zap/zapcore"
 
 	"pdverif/internal/c07x"
 	"pdverif/internal/coqfmt"
+	"pdverif/internal/etcdx"
 	"pdverif/internal/res"
 	"pdverif/internal/rng"
 )
@@ -76,6 +82,7 @@ type world struct {
 	ctx     context.Context
 	cancel  context.CancelFunc
 	wb      bool
+	enc     bool // encryption at rest with a real key manager
 	bc      *core.BasicCluster
 	base    kv.Base
 	rs      *core.RegionStorage
@@ -89,12 +96,16 @@ type world struct {
 }
 
 func (w *world) newStorage(base kv.Base) *core.Storage {
+	var opts []core.StorageOption
+	if w.enc {
+		opts = append(opts, core.WithEncryptionKeyManager(keyManager()))
+	}
 	if w.wb {
-		s := core.NewStorage(base, core.WithRegionStorage(w.rs))
+		s := core.NewStorage(base, append(opts, core.WithRegionStorage(w.rs))...)
 		s.SwitchToRegionStorage()
 		return s
 	}
-	return core.NewStorage(base)
+	return core.NewStorage(base, opts...)
 }
 
 func (w *world) facade(st *core.Storage) *cluster.RaftCluster {
@@ -103,17 +114,71 @@ func (w *world) facade(st *core.Storage) *cluster.RaftCluster {
 	return rc
 }
 
-func newWorld(wb bool, opt *config.PersistOptions) *world {
-	journal.Begin(map[string]interface{}{"wb": wb})
+// encryption at rest: one real key manager (server/encryptionkm: master key file, data key stored in an embedded etcd) for the run
+var (
+	kmOnce sync.Once
+	kmInst *encryptionkm.KeyManager
+)
+
+func keyManager() *encryptionkm.KeyManager {
+	kmOnce.Do(func() {
+		e, err := etcdx.Start()
+		if err != nil {
+			panic(err)
+		}
+		cli, _, err := e.NewClient()
+		if err != nil {
+			panic(err)
+		}
+		dir, err := os.MkdirTemp("", "c06key")
+		if err != nil {
+			panic(err)
+		}
+		keyFile := path.Join(dir, "key")
+		if err := os.WriteFile(keyFile, []byte("8fd7e3e917c170d92f3e51a981dd7bc8fba11f3df7d8df994842f6e86f69b530"), 0o600); err != nil {
+			panic(err)
+		}
+		cfg := &encryption.Config{DataEncryptionMethod: "aes128-ctr",
+			MasterKey: encryption.MasterKeyConfig{Type: "file", MasterKeyFileConfig: encryption.MasterKeyFileConfig{FilePath: keyFile}}}
+		if err := cfg.Adjust(); err != nil {
+			panic(err)
+		}
+		m, err := encryptionkm.NewKeyManager(cli, cfg)
+		if err != nil {
+			panic(err)
+		}
+		leader := election.NewLeadership(cli, "c06_leader", "c06")
+		if err := leader.Campaign(30000000, ""); err != nil {
+			panic(err)
+		}
+		if err := m.SetLeadership(leader); err != nil {
+			panic(err)
+		}
+		if _, k, err := m.GetCurrentKey(); err != nil || k == nil {
+			panic(fmt.Sprint("no data key: ", err))
+		}
+		kmInst = m
+	})
+	return kmInst
+}
+
+func newWorld(wb bool, opt *config.PersistOptions) *world { return newWorldEnc(wb, false, opt) }
+
+func newWorldEnc(wb, enc bool, opt *config.PersistOptions) *world {
+	journal.Begin(map[string]interface{}{"wb": wb, "enc": enc})
 	ctx, cancel := context.WithCancel(context.Background())
-	w := &world{ctx: ctx, cancel: cancel, wb: wb, bc: core.NewBasicCluster(), base: kv.NewMemoryKV(), opt: opt, threads: map[int]*thread{}}
+	w := &world{ctx: ctx, cancel: cancel, wb: wb, enc: enc, bc: core.NewBasicCluster(), base: kv.NewMemoryKV(), opt: opt, threads: map[int]*thread{}}
 	if wb {
 		dir, err := os.MkdirTemp("", "c06rs")
 		if err != nil {
 			panic(err)
 		}
 		w.dir = dir
-		rs, err := core.NewRegionStorage(ctx, dir, nil)
+		var km *encryptionkm.KeyManager
+		if enc {
+			km = keyManager()
+		}
+		rs, err := core.NewRegionStorage(ctx, dir, km)
 		if err != nil {
 			panic(err)
 		}
@@ -403,6 +468,7 @@ func (w *world) exec(o *hop) string {
 
 type hcase struct {
 	WB   bool     `json:"wb"`
+	Enc  bool     `json:"enc,omitempty"` // encryption at rest (transparent to the model)
 	Ops  []hop    `json:"ops"`
 	Obs  []string `json:"obs"`
 	tags map[string]int
@@ -503,9 +569,9 @@ func mangleHB(r *rng.R, x c07x.Region, tags map[string]int) c07x.Region {
 	return x
 }
 
-func genCase(r *rng.R, opt *config.PersistOptions, wb bool, a c07x.Alphabet, nops int, malformed, concurrent bool) hcase {
-	c := hcase{WB: wb, tags: map[string]int{}}
-	w := newWorld(wb, opt)
+func genCase(r *rng.R, opt *config.PersistOptions, wb, enc bool, a c07x.Alphabet, nops int, malformed, concurrent bool) hcase {
+	c := hcase{WB: wb, Enc: enc, tags: map[string]int{}}
+	w := newWorldEnc(wb, enc, opt)
 	defer w.close()
 	g := &gen{r: r, w: w, c: &c, ids: map[uint64]bool{}, last: time.Now()}
 	var stamp int64
@@ -513,6 +579,7 @@ func genCase(r *rng.R, opt *config.PersistOptions, wb bool, a c07x.Alphabet, nop
 	var sent []c07x.Region // every heartbeat content ever produced (for delays and duplicates)
 	c.tags["alphabet:"+a.Name]++
 	c.tags[fmt.Sprintf("backend-writeback:%v", wb)]++
+	c.tags[fmt.Sprintf("encryption-at-rest:%v", enc)]++
 	if malformed {
 		c.tags["stream:malformed"]++
 	} else {
@@ -735,7 +802,9 @@ func main() {
 		return opFunc[k]
 	})
 	journal = c07x.OpenOpLog(*oplog)
-	log.ReplaceGlobals(zap.NewNop(), nil)
+	// debug level with a core that formats every field (output discarded): the lazily evaluated Stringers of the log lines
+	// inside the code under test (RegionToHexMeta ...) are really evaluated, as with log-level = "debug"
+	log.ReplaceGlobals(zap.New(zapcore.NewCore(zapcore.NewJSONEncoder(zap.NewProductionEncoderConfig()), zapcore.AddSync(io.Discard), zap.DebugLevel)), nil)
 	opt := config.NewTestOptions()
 
 	R := res.New("C06", *seed, *tier)
@@ -792,7 +861,7 @@ func main() {
 			panic(err)
 		}
 		for _, c := range l {
-			w := newWorld(c.WB, opt)
+			w := newWorldEnc(c.WB, c.Enc, opt)
 			c.Obs = nil
 			c.tags = map[string]int{"fixed": 1}
 			for i := range c.Ops {
@@ -837,7 +906,7 @@ func main() {
 			}
 			var c hcase
 			for try := 0; try < 3; try++ {
-				c = genCase(master.Fork(uint64(k)), opt, k%3 == 1, a, nops, k%8 == 6, k%2 == 1)
+				c = genCase(master.Fork(uint64(k)), opt, k%3 == 1, k%5 == 3, a, nops, k%8 == 6, k%2 == 1)
 				if !c.slow {
 					break
 				}
